@@ -18,8 +18,8 @@ def negLimitKept : Nat := 1
 def singleCalls : Nat := 0
 def collateProbe : Bytes := [91, 117, 115, 101, 114, 124, 97, 10, 10, 98, 93]
 def systemJoinProbe : Bytes := [83, 60, 97, 10, 10, 98, 62, 91, 117, 115, 101, 114, 124, 120, 93]
-def legacyJoinProbe : Bytes := [98, 32]
-def variantBits : Nat := 9
+def legacyJoinProbe : Bytes := [97, 10, 10, 98, 32]
+def variantBits : Nat := 13
 def f4Probe : Bytes := [83, 89, 83, 32, 104, 105, 32]
 def cutElseProbe : Bytes := [104, 105]
 def legacyOrderProbe : Bytes := [97, 32, 115, 32, 98, 32, 99, 32, 116, 32]
